@@ -419,3 +419,115 @@ Qed.
 Theorem contextual_others a b : ctx_rank a = ((-1)%Z, 0%Z) -> ctx_rank b = ((-1)%Z, 0%Z) ->
   ctx_lt a b = by_name_smart a b.
 Proof. intros Ra Rb. rewrite (ctx_lt_same_set _ a b 0%Z 0%Z Ra Rb). reflexivity. Qed.
+
+(* ---------------------------------------------------------------- the independent calendar check is implied *)
+Lemma calendar_entry_len names tbl n p : calendar_table_ok names tbl = true -> lookup tbl n = Some p ->
+  (3 <= List.length n)%nat.
+Proof.
+  unfold calendar_table_ok. intros H Hl. apply andb_true_iff in H as [H _].
+  rewrite forallb_forall in H. specialize (H (n, p) (lookup_In _ _ _ Hl)). cbn in H.
+  repeat (apply andb_true_iff in H as [H ?]). now apply Nat.leb_le.
+Qed.
+
+Lemma prefix_first3 n x : is_prefix n x = true -> (3 <= List.length n)%nat -> firstn 3 x = firstn 3 n.
+Proof.
+  destruct n as [|a [|b [|c n']]]; cbn [List.length]; try lia. intros H _.
+  destruct x as [|x1 [|x2 [|x3 x']]]; cbn in H; try discriminate;
+    repeat (apply andb_true_iff in H as [? H]); try discriminate.
+  repeat match goal with E : (_ =? _)%N = true |- _ => apply N.eqb_eq in E end. subst. reflexivity.
+Qed.
+
+Lemma cal_idx_from_spec : forall names k n q,
+  (q < List.length names)%nat -> (3 <= List.length n)%nat ->
+  is_prefix n (nth q names []) = true ->
+  (forall i, (i < q)%nat -> is_prefix n (nth i names []) = false) ->
+  cal_idx_from k names n = Some (k + q)%nat.
+Proof.
+  induction names as [|x r IH]; intros k n q Hq Hn Hp Hfirst; cbn in Hq; [lia|].
+  cbn [cal_idx_from]. apply Nat.leb_le in Hn as Hn'. rewrite Hn'. cbn [andb].
+  destruct q as [|q].
+  - cbn in Hp. rewrite Hp. f_equal. lia.
+  - pose proof (Hfirst 0%nat ltac:(lia)) as H0. cbn in H0. rewrite H0. cbn in Hp.
+    rewrite (IH (S k) n q); [f_equal; lia|lia|assumption|assumption|].
+    intros i Hi. apply (Hfirst (S i)). lia.
+Qed.
+
+Lemma cal_idx_table names tbl n p :
+  calendar_table_ok names tbl = true -> NoDup (map (firstn 3) names) -> lookup tbl n = Some p ->
+  cal_idx_from 0 names n = Some (Z.to_nat p) /\ (0 <= p)%Z.
+Proof.
+  intros Hok Hnd Hl.
+  destruct (calendar_entry names tbl n p Hok Hl) as [[Hp0 Hp1] Hpre].
+  pose proof (calendar_entry_len names tbl n p Hok Hl) as Hlen.
+  split; [|exact Hp0].
+  assert (Hq0 : (Z.to_nat p < List.length names)%nat) by lia.
+  apply (cal_idx_from_spec names 0 n (Z.to_nat p) Hq0 Hlen Hpre).
+  intros i Hi. apply not_true_is_false. intros E.
+  assert (Hq : (Z.to_nat p < List.length names)%nat) by lia.
+  pose proof (prefix_first3 _ _ E Hlen) as E1. pose proof (prefix_first3 _ _ Hpre Hlen) as E2.
+  assert (Ei : i = Z.to_nat p).
+  { apply (proj1 (NoDup_nth (map (firstn 3) names) []) Hnd).
+    - rewrite map_length. eapply Nat.lt_trans; [exact Hi|exact Hq].
+    - rewrite map_length. exact Hq.
+    - assert (Mi : forall q, nth q (map (firstn 3) names) [] = firstn 3 (nth q names []))
+        by (intros q; exact (map_nth (firstn 3) names [] q)).
+      rewrite !Mi. etransitivity; [exact E1|symmetry; exact E2]. }
+  lia.
+Qed.
+
+Lemma weekday_names_first3 : NoDup (map (firstn 3) weekday_names).
+Proof. repeat constructor; cbn; intuition discriminate. Qed.
+Lemma month_names_first3 : NoDup (map (firstn 3) month_names).
+Proof. repeat constructor; cbn; intuition discriminate. Qed.
+
+Lemma rank_weekday_inv a : fst (ctx_rank a) = 0%Z ->
+  lookup set_weekdays (lower (kname a)) = Some (snd (ctx_rank a)).
+Proof.
+  unfold ctx_rank, set_pos. rewrite sortSets_order. cbn [set_pos_from].
+  destruct (lookup set_weekdays (lower (kname a))); cbn [fst snd Z.of_nat Pos.of_succ_nat]; [reflexivity|].
+  destruct (lookup set_months (lower (kname a))); cbn [fst snd Z.of_nat Pos.of_succ_nat]; intros H; discriminate H.
+Qed.
+Lemma rank_month_inv a : fst (ctx_rank a) = 1%Z ->
+  lookup set_months (lower (kname a)) = Some (snd (ctx_rank a)).
+Proof.
+  unfold ctx_rank, set_pos. rewrite sortSets_order. cbn [set_pos_from].
+  destruct (lookup set_weekdays (lower (kname a))); cbn [fst snd Z.of_nat Pos.of_succ_nat]; [intros H; discriminate H|].
+  destruct (lookup set_months (lower (kname a))); cbn [fst snd Z.of_nat Pos.of_succ_nat]; [reflexivity|intros H; discriminate H].
+Qed.
+
+(* the calendar index of a member is its table position *)
+Lemma cal_of_spec k s i : cal_of k = Some (s, i) ->
+  s = fst (ctx_rank k) /\ i = Z.to_nat (snd (ctx_rank k)) /\ (0 <= snd (ctx_rank k))%Z.
+Proof.
+  unfold cal_of.
+  destruct (Z.eqb_spec (fst (ctx_rank k)) 0) as [E0|_].
+  - destruct (cal_idx_table _ _ _ _ weekdays_table_ok weekday_names_first3 (rank_weekday_inv k E0)) as [C Hp].
+    rewrite C. intros H. inversion H. auto.
+  - destruct (Z.eqb_spec (fst (ctx_rank k)) 1) as [E1|_].
+    + destruct (cal_idx_table _ _ _ _ months_table_ok month_names_first3 (rank_month_inv k E1)) as [C Hp].
+      rewrite C. intros H. inversion H. auto.
+    + cbn. discriminate.
+Qed.
+
+Lemma cal_ok_sound m rv its f a b : mode_pure m its = Some f ->
+  with_rev rv f a b = true -> cal_ok m rv a b = true.
+Proof.
+  intros Hm Hg. destruct m; try reflexivity. cbn in Hm. inversion Hm; subst f. clear Hm.
+  unfold cal_ok.
+  destruct (cal_of (fst a)) as [[s i]|] eqn:Ca; [|reflexivity].
+  destruct (cal_of (fst b)) as [[t j]|] eqn:Cb; [|reflexivity].
+  apply cal_of_spec in Ca as (Es & Ei & Hpa). apply cal_of_spec in Cb as (Et & Ej & Hpb).
+  destruct (Z.eqb_spec s t) as [Est|]; [|reflexivity]. cbn [negb orb].
+  destruct (Nat.eqb_spec i j) as [|Hij]; [reflexivity|]. cbn [orb].
+  destruct (ctx_rank (fst a)) as [sa pa] eqn:Ra, (ctx_rank (fst b)) as [sb pb] eqn:Rb.
+  cbn [fst snd] in *. subst s t sb.
+  assert (Hne : pa <> pb) by (intros ->; apply Hij; congruence).
+  assert (Hc : ctx_lt (fst a) (fst b) = (pa <? pb)%Z).
+  { rewrite (ctx_lt_same_set sa (fst a) (fst b) pa pb Ra Rb).
+    destruct (Z.eqb_spec pa pb); [contradiction|reflexivity]. }
+  assert (Hlt : (i <? j)%nat = (pa <? pb)%Z).
+  { subst i j. destruct (Z.ltb_spec pa pb), (Nat.ltb_spec (Z.to_nat pa) (Z.to_nat pb)); auto; lia. }
+  rewrite Hlt. unfold with_rev, reverse, on_name in Hg. destruct rv; cbn.
+  - rewrite Hc in Hg. apply negb_true_iff in Hg. now rewrite Hg.
+  - rewrite Hc in Hg. now rewrite Hg.
+Qed.
